@@ -54,6 +54,23 @@ HARNESSES["C12"] = [
 ]
 
 
+CV = "convert::verif_kani::"
+MARK = "convert::convert_f64 -> bit-mix marker of (value, from.ratio, to.ratio) (the kernel itself is decided by Engine M)"
+CONV4 = "converter = 4 volume units (2 metric, 2 imperial), ratios in [1e-3,1e5], thresholds in [0,1e6], all symbolic"
+HARNESSES["C09"] = [
+    dict(name=CV + "c09_convert_to_best_number", tier="quick", kernel="convert::Converter::convert_to_best", stubs=[RS, FMT, MARK],
+         bound=CONV4 + "; |value| <= 1e9; unwind 6", budget_s=600,
+         obligation="result unit is one of the target system's designated units; value == convert_f64(value, from, that unit)"),
+    dict(name=CV + "c09_convert_to_best_range", tier="quick", kernel="convert::Converter::convert_to_best", stubs=[RS, FMT, MARK],
+         bound=CONV4 + "; range ends |x| <= 1e9", budget_s=600,
+         obligation="both range ends converted into the selected unit of the target system"),
+    dict(name=CV + "c09_convert_to_best_empty_list", tier="quick", kernel="convert::Converter::convert_to_best", stubs=[RS, FMT],
+         bound="one unit, empty designated lists", budget_s=300, obligation="Err(BestUnitNotFound), no panic"),
+    dict(name=CV + "c09_convert_twin_reach", tier="quick", kernel="convert::Converter::convert_to_best", stubs=[RS, FMT], twin=True,
+         bound=CONV4, budget_s=600, obligation="vacuity twin"),
+]
+
+
 def select(prop, tier):
     out = []
     for e in HARNESSES.get(prop, []):
